@@ -823,3 +823,8 @@ fire('loop1-alias-carried-over', ['C14'], ['LOOP-1'], 'ImportName._dotted_as_nam
 silent('s-loop1-default-inside-loop', ['C14'], 'ImportName._dotted_as_names: the default is assigned at the top of every iteration instead of in an else arm',
        (PYTREE, "        for as_name in as_names:\n            if as_name.type == 'dotted_as_name':\n                alias = as_name.children[2]\n                as_name = as_name.children[0]\n            else:\n                alias = None\n",
         "        for as_name in as_names:\n            alias = None\n            if as_name.type == 'dotted_as_name':\n                alias = as_name.children[2]\n                as_name = as_name.children[0]\n"))
+
+# round 13: a fast path above the first-line block (rt2-C09, rt13-C01, rt13-C03)
+fire('tok14-fast-path-above-first-line-block', ['C03', 'C09'], ['TOK-14'], 'blank lines are appended to the pending prefix by a fast path that continues above the first-line block: the BOM / start column handling runs for a later line',
+     (TOK, "        pos = 0\n        max_ = len(line)\n        if is_first_token:\n", "        pos = 0\n        max_ = len(line)\n        if new_line and not contstr and not fstring_stack and line in ('\\n', '\\r\\n', '\\r'):\n            additional_prefix += line\n            continue\n        if is_first_token:\n"),
+     (TOK, "                additional_prefix = BOM_UTF8_STRING\n", "                additional_prefix += BOM_UTF8_STRING\n"))
